@@ -2,17 +2,26 @@
 // test) into a copy in which every synchronisation step selected by a profile is preceded by a vsched
 // scheduling point. The copy replaces the original through `go build -overlay`; nothing is written to /repo.
 //
-//   atomic.F(&x.f, …)             ->  vsched.Y("fn:atomic.F:&x.f", atomic.F)(&x.f, …)
-//   x.q.Push(v) / x.q.Pop()       ->  vsched.Y("fn:x.q.Push", x.q.Push)(v)            (profile: wrap patterns)
-//   go f(a…)                      ->  vsched.Go("fn:go:f", func() { f(a…) })
-//   x.mu.Lock()/Unlock()          ->  vsched.Lock(&x.mu, "fn:Lock:x.mu") / vsched.Unlock(&x.mu)   (also deferred)
-//   <-x.done                      ->  vsched.RecvClosed(x.done, "fn:recv:x.done")
-//   close(x.done)                 ->  vsched.Y("fn:close:x.done", func() { close(x.done) })()
-//   x.f = e   (profile: assign)   ->  x.f = vsched.Y("fn:assign:x.f", e)
-//   time.AfterFunc / *time.Timer  ->  vsched.AfterFunc / *vsched.Timer
+//	atomic.F(&x.f, …)             ->  vsched.Y("fn:atomic.F:&x.f", atomic.F)(&x.f, …)
+//	x.q.Push(v) / x.q.Pop()       ->  vsched.Y("fn:x.q.Push", x.q.Push)(v)            (profile: wrap patterns)
+//	go f(a…)                      ->  vsched.Go("fn:go:f", func() { f(a…) })
+//	x.mu.Lock()/Unlock()          ->  vsched.Lock(&x.mu, "fn:Lock:x.mu") / vsched.Unlock(&x.mu)   (also deferred)
+//	<-x.done                      ->  vsched.RecvClosed(x.done, "fn:recv:x.done")
+//	close(x.done)                 ->  vsched.Y("fn:close:x.done", func() { close(x.done) })()
+//	x.f = e   (profile: assign)   ->  x.f = vsched.Y("fn:assign:x.f", e)
+//	time.AfterFunc / *time.Timer  ->  vsched.AfterFunc / *vsched.Timer
 //
 // It fails (exit 2) when the file contains a construct of a selected kind it cannot handle (select
 // statements, channel sends), rather than leaving it uncontrolled.
+//
+// Profile "system" is SEMANTIC: an operation is identified by WHAT it does, not by where it stands - the label of a
+// scheduling point is "<kind>:<role>" ("Lock:status", "call:Kill", "select:guardClosed", "recv:ctxDone" ...) without the
+// enclosing function, and the operations are found in whatever function, helper method or closure they are written:
+//
+//	a mutex field is the STATUS lock if some function locks it and reads / writes `.status` (itself or through a method
+//	of the same file it calls), the ACTOROF lock if it is locked in a function called ActorOf; the field names do not matter
+//	`<-c` is the context receive if c is `….Done()` or a variable assigned from `….Done()`
+//	the two-way select on the guard-closed channel and ANY other channel (time.After(d), timer.C, …) is the stop select
 package main
 
 import (
@@ -44,6 +53,16 @@ type profile struct {
 	// selectTimer: `select { case <-ch: A; case <-time.After(d): B }` with ch matching recvClosed becomes
 	// `switch vsched.SelectClosedOrTimer(ch, d, "fn:select:ch") { case 0: A; case 1: B }`
 	selectTimer bool
+	// semantic: labels are "<kind>:<role>" (see the package comment); wrapRole / yieldRole give the role of a wrapped
+	// callee / of a statement that gets a scheduling point of its own (first matching pattern wins)
+	semantic  bool
+	wrapRole  []roleRx
+	yieldRole []roleRx
+}
+
+type roleRx struct {
+	rx   *regexp.Regexp
+	role string
 }
 
 func rx(ps ...string) []*regexp.Regexp {
@@ -86,10 +105,19 @@ var profiles = map[string]profile{
 	// a lock order the controlled scheduler has to see), the context-guard goroutine, the unsynchronised reads of s.Context / s.clusterContext, Kill(root), cancel,
 	// the select on guardClosedSignal / time.After, scheduler.Stop
 	"system": {
-		wrap:        rx(`^s\.cancel$`, `^s\.Context\.Kill$`, `^s\.scheduler\.Stop$`, `^s\.clusterContext\.Leave$`),
-		locks:       rx(`^s\.(statusLock|actorOfLock)$`),
-		recvClosed:  rx(`^s\.options\.Context\.Done\(\)$`, `^s\.guardClosedSignal$`),
-		yieldStmt:   rx(`^system\.Context, err = NewContext\(`, `^if s\.Context != nil \{`, `^if s\.clusterContext != nil \{`, `^if system\.options\.Metrics != nil \{`),
+		semantic: true,
+		wrapRole: []roleRx{
+			{regexp.MustCompile(`\.cancel$`), "call:cancel"},
+			{regexp.MustCompile(`\.Context\.Kill$`), "call:Kill"},
+			{regexp.MustCompile(`\.scheduler\.Stop$`), "call:scheduler.Stop"},
+			{regexp.MustCompile(`\.clusterContext\.Leave$`), "call:Leave"},
+		},
+		yieldRole: []roleRx{
+			{regexp.MustCompile(`^\w+\.Context, \w+ :?= NewContext\(`), "stmt:NewContext"},
+			{regexp.MustCompile(`^if \w+\.Context [!=]= nil \{`), "stmt:if-Context"},
+			{regexp.MustCompile(`^if \w+\.clusterContext [!=]= nil \{`), "stmt:if-clusterContext"},
+			{regexp.MustCompile(`^if \w+\.options\.Metrics [!=]= nil \{`), "stmt:if-Metrics"},
+		},
 		selectTimer: true,
 		goStmts:     true,
 		strict:      true,
@@ -113,8 +141,10 @@ func show(n ast.Node) string {
 	return b.String()
 }
 
-func sel(pkg, name string) ast.Expr { return &ast.SelectorExpr{X: ast.NewIdent(pkg), Sel: ast.NewIdent(name)} }
-func lit(s string) ast.Expr          { return &ast.BasicLit{Kind: token.STRING, Value: strconv.Quote(s)} }
+func sel(pkg, name string) ast.Expr {
+	return &ast.SelectorExpr{X: ast.NewIdent(pkg), Sel: ast.NewIdent(name)}
+}
+func lit(s string) ast.Expr { return &ast.BasicLit{Kind: token.STRING, Value: strconv.Quote(s)} }
 
 type rewriter struct {
 	p     profile
@@ -122,6 +152,113 @@ type rewriter struct {
 	recv  string
 	count int
 	fail  []string
+	// semantic profiles: role of each mutex field of the file ("status", "actorOf"); variables holding a context's Done channel
+	lockRole map[string]string
+	doneVars map[string]bool
+}
+
+func roleOf(rs []roleRx, s string) string {
+	for _, r := range rs {
+		if r.rx.MatchString(s) {
+			return r.role
+		}
+	}
+	return ""
+}
+
+// isCtxDone: the channel expression is `….Done()` or a variable assigned from one
+func (r *rewriter) isCtxDone(e ast.Expr) bool {
+	if regexp.MustCompile(`\.Done\(\)$`).MatchString(show(e)) {
+		return true
+	}
+	if id, ok := e.(*ast.Ident); ok && r.doneVars[id.Name] {
+		return true
+	}
+	return false
+}
+
+// analyse (semantic profiles): the roles of the mutex fields declared in the file and the Done-channel variables
+func (r *rewriter) analyse(f *ast.File) {
+	r.lockRole = map[string]string{}
+	r.doneVars = map[string]bool{}
+	mutex := map[string]bool{}
+	ast.Inspect(f, func(n ast.Node) bool {
+		if st, ok := n.(*ast.StructType); ok {
+			for _, fl := range st.Fields.List {
+				if t := show(fl.Type); t == "sync.Mutex" || t == "sync.RWMutex" {
+					for _, nm := range fl.Names {
+						mutex[nm.Name] = true
+					}
+				}
+			}
+		}
+		if as, ok := n.(*ast.AssignStmt); ok && len(as.Lhs) == 1 && len(as.Rhs) == 1 {
+			if id, ok := as.Lhs[0].(*ast.Ident); ok && regexp.MustCompile(`\.Done\(\)$`).MatchString(show(as.Rhs[0])) {
+				r.doneVars[id.Name] = true
+			}
+		}
+		return true
+	})
+	type info struct {
+		locks   map[string]bool
+		status  bool
+		callees map[string]bool
+	}
+	funcs := map[string]*info{}
+	for _, d := range f.Decls {
+		fd, ok := d.(*ast.FuncDecl)
+		if !ok || fd.Body == nil {
+			continue
+		}
+		in := &info{locks: map[string]bool{}, callees: map[string]bool{}}
+		ast.Inspect(fd.Body, func(n ast.Node) bool {
+			switch x := n.(type) {
+			case *ast.SelectorExpr:
+				if x.Sel.Name == "status" {
+					in.status = true
+				}
+			case *ast.CallExpr:
+				if se, ok := x.Fun.(*ast.SelectorExpr); ok {
+					if se.Sel.Name == "Lock" || se.Sel.Name == "RLock" {
+						if inner, ok := se.X.(*ast.SelectorExpr); ok && mutex[inner.Sel.Name] {
+							in.locks[inner.Sel.Name] = true
+						}
+					}
+					in.callees[se.Sel.Name] = true
+				} else if id, ok := x.Fun.(*ast.Ident); ok {
+					in.callees[id.Name] = true
+				}
+			}
+			return true
+		})
+		funcs[fd.Name.Name] = in
+	}
+	for name, in := range funcs {
+		touches := in.status
+		for c := range in.callees {
+			if g, ok := funcs[c]; ok && g.status {
+				touches = true
+			}
+		}
+		for l := range in.locks {
+			if name == "ActorOf" {
+				r.lockRole[l] = "actorOf"
+			} else if touches && r.lockRole[l] == "" {
+				r.lockRole[l] = "status"
+			}
+		}
+	}
+	if len(mutex) > 0 {
+		hasStatus := false
+		for _, role := range r.lockRole {
+			if role == "status" {
+				hasStatus = true
+			}
+		}
+		if !hasStatus {
+			r.fail = append(r.fail, "no mutex field with the role of the status lock found (a mutex locked by a function that reads / writes `.status`)")
+		}
+	}
 }
 
 func (r *rewriter) yWrap(label string, e ast.Expr) ast.Expr {
@@ -144,7 +281,18 @@ func (r *rewriter) expr(e ast.Expr) ast.Expr {
 		}
 		callee := show(x.Fun)
 		// locks
-		if s, ok := x.Fun.(*ast.SelectorExpr); ok {
+		if s, ok := x.Fun.(*ast.SelectorExpr); ok && r.p.semantic {
+			if inner, ok := s.X.(*ast.SelectorExpr); ok && r.lockRole[inner.Sel.Name] != "" {
+				switch s.Sel.Name {
+				case "Lock", "RLock":
+					r.count++
+					return &ast.CallExpr{Fun: sel("vsched", "Lock"), Args: []ast.Expr{&ast.UnaryExpr{Op: token.AND, X: s.X}, lit("Lock:" + r.lockRole[inner.Sel.Name])}}
+				case "Unlock", "RUnlock":
+					return &ast.CallExpr{Fun: sel("vsched", "Unlock"), Args: []ast.Expr{&ast.UnaryExpr{Op: token.AND, X: s.X}}}
+				}
+			}
+		}
+		if s, ok := x.Fun.(*ast.SelectorExpr); ok && !r.p.semantic {
 			recv := show(s.X)
 			if matches(r.p.locks, recv) {
 				switch s.Sel.Name {
@@ -165,6 +313,12 @@ func (r *rewriter) expr(e ast.Expr) ast.Expr {
 			x.Fun = sel("vsched", "AfterFunc")
 			return x
 		}
+		if r.p.semantic {
+			if role := roleOf(r.p.wrapRole, callee); role != "" {
+				x.Fun = r.yWrap(role, x.Fun)
+				return x
+			}
+		}
 		if matches(r.p.wrap, callee) {
 			label := r.fn + ":" + callee
 			if len(x.Args) > 0 && regexp.MustCompile(`^atomic\.`).MatchString(callee) {
@@ -178,6 +332,10 @@ func (r *rewriter) expr(e ast.Expr) ast.Expr {
 	case *ast.UnaryExpr:
 		if x.Op == token.ARROW {
 			ch := show(x.X)
+			if r.p.semantic && r.isCtxDone(x.X) {
+				r.count++
+				return &ast.CallExpr{Fun: sel("vsched", "RecvClosed"), Args: []ast.Expr{x.X, lit("recv:ctxDone")}}
+			}
 			if matches(r.p.recvClosed, ch) {
 				r.count++
 				return &ast.CallExpr{Fun: sel("vsched", "RecvClosed"), Args: []ast.Expr{x.X, lit(r.fn + ":recv:" + ch)}}
@@ -243,6 +401,9 @@ func (r *rewriter) stmt(s ast.Stmt) ast.Stmt {
 				x.Call.Args[i] = r.expr(x.Call.Args[i])
 			}
 			label := r.fn + ":go:" + firstLine(show(x.Call.Fun))
+			if r.p.semantic {
+				label = "go"
+			}
 			if fl, ok := x.Call.Fun.(*ast.FuncLit); ok { // `go func() {...}()`: the body is code under test too
 				x.Call.Fun = r.expr(fl)
 			}
@@ -325,7 +486,7 @@ func (r *rewriter) block(b *ast.BlockStmt) {
 	if b == nil {
 		return
 	}
-	if len(r.p.yieldStmt) == 0 {
+	if len(r.p.yieldStmt) == 0 && len(r.p.yieldRole) == 0 {
 		for i := range b.List {
 			b.List[i] = r.stmt(b.List[i])
 		}
@@ -334,7 +495,10 @@ func (r *rewriter) block(b *ast.BlockStmt) {
 	var out []ast.Stmt
 	for _, st := range b.List {
 		first := firstLine(show(st))
-		if matches(r.p.yieldStmt, first) {
+		if role := roleOf(r.p.yieldRole, first); role != "" {
+			r.count++
+			out = append(out, &ast.ExprStmt{X: &ast.CallExpr{Fun: sel("vsched", "Yield"), Args: []ast.Expr{lit(role)}}})
+		} else if matches(r.p.yieldStmt, first) {
 			r.count++
 			out = append(out, &ast.ExprStmt{X: &ast.CallExpr{Fun: sel("vsched", "Yield"), Args: []ast.Expr{lit(r.fn + ":stmt:" + first)}}})
 		}
@@ -355,6 +519,9 @@ func firstLine(s string) string {
 // selectTimer rewrites the two-way select on a closed-only channel and time.After (see profile.selectTimer);
 // nil if the statement does not have that shape.
 func (r *rewriter) selectTimer(x *ast.SelectStmt) ast.Stmt {
+	if r.p.semantic {
+		return r.selectStop(x)
+	}
 	if len(x.Body.List) != 2 {
 		return nil
 	}
@@ -397,6 +564,66 @@ func (r *rewriter) selectTimer(x *ast.SelectStmt) ast.Stmt {
 		return &ast.CaseClause{List: []ast.Expr{&ast.BasicLit{Kind: token.INT, Value: v}}, Body: body}
 	}
 	return &ast.SwitchStmt{Tag: tag, Body: &ast.BlockStmt{List: []ast.Stmt{mk("0", bodies[0]), mk("1", bodies[1])}}}
+}
+
+// selectStop (semantic profiles): `select { case <-closed: A; case <-other: B }` where `closed` is the guard-closed channel
+// (a field whose name says so: …Closed… / …closedSignal) and `other` is ANY other channel - time.After(d), timer.C of a
+// time.NewTimer, a context's Done() … - becomes
+//
+//	switch vsched.SelectClosedOrTimer(closed, d, "select:guardClosed") { case 0: A; default: B }        (time.After(d))
+//	switch vsched.SelectClosedOrChan(closed, other, "select:guardClosed") { case 0: A; default: B }     (anything else)
+//
+// (`default` keeps a select whose arms all return a terminating statement).
+func (r *rewriter) selectStop(x *ast.SelectStmt) ast.Stmt {
+	if len(x.Body.List) != 2 {
+		return nil
+	}
+	closedRx := regexp.MustCompile(`(?i)closed`)
+	var chExpr, durExpr, otherExpr ast.Expr
+	var bodies [2][]ast.Stmt
+	for _, c := range x.Body.List {
+		cc, ok := c.(*ast.CommClause)
+		if !ok || cc.Comm == nil {
+			return nil
+		}
+		es, ok := cc.Comm.(*ast.ExprStmt)
+		if !ok {
+			return nil
+		}
+		u, ok := es.X.(*ast.UnaryExpr)
+		if !ok || u.Op != token.ARROW {
+			return nil
+		}
+		if chExpr == nil && closedRx.MatchString(show(u.X)) {
+			chExpr = u.X
+			bodies[0] = cc.Body
+		} else if call, ok := u.X.(*ast.CallExpr); ok && show(call.Fun) == "time.After" && len(call.Args) == 1 {
+			durExpr = call.Args[0]
+			bodies[1] = cc.Body
+		} else {
+			otherExpr = u.X
+			bodies[1] = cc.Body
+		}
+	}
+	if chExpr == nil || (durExpr == nil && otherExpr == nil) {
+		return nil
+	}
+	r.count++
+	for k := range bodies {
+		for i := range bodies[k] {
+			bodies[k][i] = r.stmt(bodies[k][i])
+		}
+	}
+	var tag ast.Expr
+	if durExpr != nil {
+		tag = &ast.CallExpr{Fun: sel("vsched", "SelectClosedOrTimer"), Args: []ast.Expr{chExpr, durExpr, lit("select:guardClosed")}}
+	} else {
+		tag = &ast.CallExpr{Fun: sel("vsched", "SelectClosedOrChan"), Args: []ast.Expr{chExpr, otherExpr, lit("select:guardClosed")}}
+	}
+	return &ast.SwitchStmt{Tag: tag, Body: &ast.BlockStmt{List: []ast.Stmt{
+		&ast.CaseClause{List: []ast.Expr{&ast.BasicLit{Kind: token.INT, Value: "0"}}, Body: bodies[0]},
+		&ast.CaseClause{List: nil, Body: bodies[1]},
+	}}}
 }
 
 // selectPoll rewrites the non-blocking poll `select { case <-ch: A; default: B }` on a closed-only channel
@@ -459,6 +686,9 @@ func main() {
 		os.Exit(2)
 	}
 	r := &rewriter{p: p}
+	if p.semantic {
+		r.analyse(f)
+	}
 	for _, d := range f.Decls {
 		switch x := d.(type) {
 		case *ast.FuncDecl:
